@@ -108,3 +108,16 @@ def _deepcopy(ex, fv_, args, kwargs, fr, node):
     """copy.deepcopy(x): a new object graph that shares nothing with the program's objects; modelled as an opaque new object
     (pyhms only stores such copies in bookkeeping lists that no property reads)"""
     return Val(Ty("ref", cls="$Opaque"), ex.new_obj("deepcopy", "$Opaque"))
+
+
+_MEANF = z3.Function("MEANF", z3.ArraySort(INT, FL), INT, FL)
+
+
+@handler("numpy.mean")
+def _npmean(ex, fv_, args, kwargs, fr, node):
+    """numpy.mean of a list of floats: an uninterpreted function of the sequence (its value is not constrained by any contract)"""
+    from .models import larrs
+    lst = as_list(ex, args[0], fr, node)
+    if lst.ty.args[0].kind != "fl" or kwargs:
+        raise Unsupported("numpy.mean other than the mean of a list of floats")
+    return vfl(_MEANF(larrs(ex, lst)[0], llen(ex, lst)))
